@@ -15,6 +15,6 @@ VERIF_REPO="$S/repo" ./check "$@"
 rc=$?
 rm -rf evidence; mv "$S/evidence.bak" evidence
 if [ -z "${KEEP_REPLAYS:-}" ]; then rm -rf replays; mv "$S/replays.bak" replays; fi
-rm -rf "$S"
+rm -rf "$S" /verif/.build-alt-*
 echo "mutrun rc=$rc"
 exit $rc
